@@ -234,3 +234,11 @@ impl Lzma2Decoder {
         Ok(())
     }
 }
+
+#[cfg(lzma_rs_verif)]
+impl Lzma2Decoder {
+    /// Decoder state as bytes (verification hook).
+    pub fn verif_state_bytes(&self) -> Vec<u8> {
+        self.lzma_state.verif_state_bytes()
+    }
+}
